@@ -78,9 +78,12 @@ def run(ck, facts, tier):
     rule_binders(ck, facts)
     c09.rule_gensym(ck, facts, lang, R="C09.gensym")
     c09.rule_subst_order(ck, facts, lang)
+    # the block a quoted `{ .. }` is rebuilt as is what ends the scope of the names bound in it
+    c09.rule_decode(ck, facts, lang, c09.emitted_names(facts, lang), c09.registered(facts, lang))
     c17.rule_scope(ck, facts, R="C17.scope")
     # a binder is in force for its continuation (renaming a binder must not change which definition a later use means)
     c17.rule_context_bracket(ck, facts)
+    c17.rule_lexical_first(ck, facts)
     # whether a definition is recursive (its own name is in scope in its body) is decided by a search predicate over
     # the body; it must look everywhere, quoted code included
     from ..rules import exprwalk
